@@ -361,7 +361,45 @@ def rule_T10(text):
     return out + text[last:], fired
 
 
-RULES = {'T1': rule_T1, 'T2': rule_T2, 'T3': rule_T3, 'T5': rule_T5, 'T10': rule_T10}
+def rule_T8(text, var, fields):
+    """field access through `Deref` of a map guard: `VAR.field` -> `VAR.value().field`
+    (dashmap's `Deref for RefMulti` is `self.value()`)"""
+    mask = code_mask(text)
+    out, last, fired = '', 0, 0
+    for m in re.finditer(r'\b' + re.escape(var) + r'\s*\.\s*(' + '|'.join(re.escape(f) for f in fields) + r')\b(?!\s*\()', mask):
+        out += text[last:m.start()] + '%s.value().%s' % (var, m.group(1))
+        last = m.end()
+        fired += 1
+    return out + text[last:], fired
+
+
+def rule_T9(text):
+    """`for PAT in EXPR[.by_ref()] { BODY }` over a non-range iterator -> the loop it desugars to:
+    `let mut verif_it = EXPR; loop { let verif_next = verif_it.next(); if verif_next.is_none() { break; } let PAT = verif_next.unwrap(); BODY }`"""
+    fired = 0
+    while True:
+        mask = code_mask(text)
+        m = None
+        for c in re.finditer(r'\bfor\s+(\w+)\s+in\s+', mask):
+            ob = first_open_brace(mask, c.end())
+            expr = text[c.end():ob].strip()
+            if '..' in code_mask(expr):
+                continue          # a range loop: Verus supports it directly
+            m = (c, ob, expr)
+            break
+        if not m:
+            break
+        c, ob, expr = m
+        expr = re.sub(r'\.\s*by_ref\s*\(\s*\)\s*$', '', expr)
+        ind = re.match(r'[ \t]*', text[text.rfind('\n', 0, c.start()) + 1:]).group(0)
+        head = ('let mut verif_it = %s;\n%sloop {\n%s    let verif_next = verif_it.next();\n%s    if verif_next.is_none() { break; }\n%s    let %s = verif_next.unwrap();'
+                % (expr, ind, ind, ind, ind, c.group(1)))
+        text = text[:c.start()] + head + text[ob + 1:]
+        fired += 1
+    return text, fired
+
+
+RULES = {'T1': rule_T1, 'T2': rule_T2, 'T3': rule_T3, 'T5': rule_T5, 'T9': rule_T9, 'T10': rule_T10}
 
 
 def rule_T6(body, callees, arg):
@@ -508,6 +546,9 @@ def extract_fn(repo: str, spec: dict):
     for r in spec.get('rules', []):
         body, n = RULES[r](body)
         fired[r] = n
+    for (var, fields) in spec.get('derefs', []):
+        body, n = rule_T8(body, var, fields)
+        fired['T8:' + var] = n
     for (callees, arg) in spec.get('ghost_args', []):
         body, n = rule_T6(body, callees, arg)
         if n == 0:
